@@ -18,29 +18,26 @@ def write_if_changed(path, text):
 
 
 def budget():
-    """the integer literal assigned to `count` in MatchTraverser.__next__"""
+    """the action budget of one MatchTraverser.__next__ call: the only large integer constant the
+    method uses, written inline or through a module-level name it refers to"""
     tree = ast.parse(open(os.path.join(SRC, "path/traverser/match_traverser.py")).read())
+    module_consts = {}
+    for node in tree.body:
+        if isinstance(node, ast.Assign) and len(node.targets) == 1 and isinstance(node.targets[0], ast.Name) \
+                and isinstance(node.value, ast.Constant) and isinstance(node.value.value, int):
+            module_consts[node.targets[0].id] = int(node.value.value)
+    cands = set()
     for node in ast.walk(tree):
         if isinstance(node, ast.FunctionDef) and node.name == "__next__":
             for st in ast.walk(node):
-                if isinstance(st, ast.Assign) and len(st.targets) == 1 and isinstance(st.targets[0], ast.Name) \
-                        and st.targets[0].id == "count" and isinstance(st.value, ast.Constant):
-                    return int(st.value.value)
-    raise RuntimeError("loop budget literal not found in MatchTraverser.__next__")
-
-
-def lean_str_list(xs):
-    return "[" + ", ".join('"' + x.replace('"', '\\"') + '"' for x in xs) + "]"
-
-
-def reserved():
-    """attribute names that resolve on a PathBuilder without reaching __getattr__"""
-    import importlib
-    mod = importlib.import_module("treepath.path.builder.path_builder")
-    dash = importlib.import_module("treepath.path.builder.dash_path_builder")
-    a = sorted(set(dir(mod.PathBuilder)))
-    b = sorted(set(dir(dash.DashPathBuilder)))
-    return a, b
+                if isinstance(st, ast.Constant) and isinstance(st.value, int) and not isinstance(st.value, bool) \
+                        and st.value >= 1000:
+                    cands.add(int(st.value))
+                if isinstance(st, ast.Name) and st.id in module_consts and module_consts[st.id] >= 1000:
+                    cands.add(module_consts[st.id])
+    if len(cands) != 1:
+        raise RuntimeError(f"loop budget of MatchTraverser.__next__ not identified (candidates: {sorted(cands)})")
+    return cands.pop()
 
 
 MUTATORS = {"append", "pop", "clear", "update", "insert", "remove", "setdefault", "extend", "sort", "reverse",
@@ -116,30 +113,43 @@ def exc_mro():
     return [(n, [c.__name__ for c in getattr(tp, n).__mro__]) for n in names]
 
 
+def lean_str_list(xs):
+    return "[" + ", ".join('"' + x.replace('"', '\\"') + '"' for x in xs) + "]"
+
+
+def reserved():
+    """attribute names that resolve on a PathBuilder without reaching __getattr__"""
+    import importlib
+    mod = importlib.import_module("treepath.path.builder.path_builder")
+    dash = importlib.import_module("treepath.path.builder.dash_path_builder")
+    return sorted(set(dir(mod.PathBuilder))), sorted(set(dir(dash.DashPathBuilder)))
+
+
 def generate():
-    b = budget()
-    stores = document_stores()
-    rows = ", ".join(f'("{m}", "{q}", "{k}")' for m, q, k in stores)
-    write_if_changed(os.path.join(GEN, "Stores.lean"), f"""/- GENERATED by harness/gen_facts.py: every store into / mutating call on a document container
-found in /repo/src/treepath (syntactic, intra-procedural, alias-tracking) — do not edit -/
+    """rewrites the generated files; returns {fact name: error text} for the facts that could
+    not be extracted (their previous files are left in place)"""
+    errors = {}
+
+    def attempt(name, fn):
+        try:
+            fn()
+        except Exception as e:  # noqa
+            errors[name] = f"{type(e).__name__}: {e}"
+
+    def gen_budget():
+        b = budget()
+        write_if_changed(os.path.join(GEN, "Budget.lean"), f"""/- GENERATED by harness/gen_facts.py from /repo/src/treepath/path/traverser/match_traverser.py — do not edit -/
 namespace Treepath.Generated
 
-/-- (module, function, kind) -/
-def documentStores : List (String × String × String) := [{rows}]
+/-- the action budget of one `__next__` call -/
+def loopBudget : Nat := {b}
 
 end Treepath.Generated
 """)
-    mro = exc_mro()
-    mrows = ", ".join('("' + n + '", ' + lean_str_list(m) + ")" for n, m in mro)
-    write_if_changed(os.path.join(GEN, "ExcMro.lean"), f"""/- GENERATED by harness/gen_facts.py from the MRO of the library's exception classes — do not edit -/
-namespace Treepath.Generated
 
-def excMro : List (String × List String) := [{mrows}]
-
-end Treepath.Generated
-""")
-    ra, rb = reserved()
-    write_if_changed(os.path.join(GEN, "Reserved.lean"), f"""/- GENERATED by harness/gen_facts.py from dir(PathBuilder) / dir(DashPathBuilder) — do not edit -/
+    def gen_reserved():
+        ra, rb = reserved()
+        write_if_changed(os.path.join(GEN, "Reserved.lean"), f"""/- GENERATED by harness/gen_facts.py from dir(PathBuilder) / dir(DashPathBuilder) — do not edit -/
 namespace Treepath.Generated
 
 /-- names that are real attributes of `PathBuilder` (never reach `__getattr__`) -/
@@ -150,15 +160,37 @@ def reservedAttrsDash : List String := {lean_str_list(rb)}
 
 end Treepath.Generated
 """)
-    write_if_changed(os.path.join(GEN, "Budget.lean"), f"""/- GENERATED by harness/gen_facts.py from /repo/src/treepath/path/traverser/match_traverser.py — do not edit -/
+
+    def gen_stores():
+        stores = document_stores()
+        rows = ", ".join(f'("{m}", "{q}", "{k}")' for m, q, k in stores)
+        write_if_changed(os.path.join(GEN, "Stores.lean"), f"""/- GENERATED by harness/gen_facts.py: every store into / mutating call on a document container
+found in /repo/src/treepath (syntactic, intra-procedural, alias-tracking) — do not edit -/
 namespace Treepath.Generated
 
-/-- the action budget of one `__next__` call (`count = …`) -/
-def loopBudget : Nat := {b}
+/-- (module, function, kind) -/
+def documentStores : List (String × String × String) := [{rows}]
 
 end Treepath.Generated
 """)
 
+    def gen_mro():
+        mro = exc_mro()
+        mrows = ", ".join('("' + n + '", ' + lean_str_list(m) + ")" for n, m in mro)
+        write_if_changed(os.path.join(GEN, "ExcMro.lean"), f"""/- GENERATED by harness/gen_facts.py from the MRO of the library's exception classes — do not edit -/
+namespace Treepath.Generated
+
+def excMro : List (String × List String) := [{mrows}]
+
+end Treepath.Generated
+""")
+
+    attempt("Budget", gen_budget)
+    attempt("Reserved", gen_reserved)
+    attempt("Stores", gen_stores)
+    attempt("ExcMro", gen_mro)
+    return errors
+
 
 if __name__ == "__main__":
-    generate()
+    print(generate())
